@@ -73,7 +73,7 @@ impl Dom for Sym {
     fn bin_parts(self) -> Option<(char, Sym, Sym)> {
         match sym::node_of(self) { sym::Node::Add(a, b) => Some(('+', Sym(a), Sym(b))), sym::Node::Sub(a, b) => Some(('-', Sym(a), Sym(b))), sym::Node::Mul(a, b) => Some(('*', Sym(a), Sym(b))), sym::Node::Div(a, b) => Some(('/', Sym(a), Sym(b))), _ => None }
     }
-    fn sqrt_part(self) -> Option<Sym> { if let sym::Node::Sqrt(c) = sym::node_of(self) { Some(Sym(c)) } else { None } }
+    fn sqrt_part(self) -> Option<Sym> { if let sym::Node::Sqrt(c) = sym::node_of(self) { Some(Sym(c)) } else { sym::exact_sqrt_arg(self) } }
     fn ratio_parts(self) -> Option<(Sym, Sym)> { if let sym::Node::Div(a, b) = sym::node_of(self) { Some((Sym(a), Sym(b))) } else { sym::exact_div_parts(self) } }
 }
 
